@@ -355,7 +355,7 @@ def run(tier, seed, replay=None):
     for name, minimum in {'reopen_comparisons': 250, 'instants_with_mutating_job_in_flight': 40,
                           'instants_with_job_alive:flush_dbs': 10, 'instants_with_job_alive:advance_block': 10,
                           'instants_with_job_alive:backup_block': 3, 'instants_in_phase:initial-sync': 20,
-                          'instants_in_phase:reorg': 10, 'instants_in_phase:idle': 10,
+                          'instants_in_phase:reorg': 10, 'instants_in_phase:daemon-down': 10, 'instants_in_phase:idle': 10,
                           'instants_in_phase:caught-up-new-block': 40, 'instants_after_some_block_job_completed': 150}.items():
         rep.floor(name, c[name], minimum)
     rep.exhaustive = tier == 'thorough'
